@@ -279,6 +279,11 @@ func crashClass(sh *model, op Op) string {
 		if op.NewID != "" && op.NewID != op.ID {
 			return "crash:rename"
 		}
+		if t, ok := sh.tasks[op.ID]; ok && op.Tmpl != "" && op.Tmpl != t.Tmpl {
+			// (on the unchanged tree this class never commits an association at all - the
+			// Catalogue class "template-changed-without-rename" - and is excluded there)
+			return "crash:template-assignment"
+		}
 	case "delete":
 		if templated(op.ID) {
 			return "crash:delete-templated-task"
